@@ -136,6 +136,8 @@ class World:
         self._ctor_sites: t.Optional[t.Dict[str, t.List[t.Tuple[Func, ast.Call]]]] = None
         self.depth = 0
         self.cutoffs = 0
+        self.int_of_str: t.Dict[str, t.Callable[[ast.expr], t.Optional[IV]]] = {}  # established by grammar rules (C08)
+        self.len_of: t.Dict[t.Tuple[str, str], IV] = {}
         self._fcache: t.Dict[t.Tuple[str, str], IV] = {}
         self._fbusy: t.Set[t.Tuple[str, str]] = set()
         self._pcache: t.Dict[t.Tuple[str, str], IV] = {}
@@ -804,6 +806,9 @@ class FuncIntervals:
             k = self._key(e)
             if k is not None and k in env:
                 return env[k].meet(IV(0, None))
+            lh = self.world.len_of.get((self.func.qual, unparse(e.args[0]))) if e.args else None
+            if lh is not None:
+                return lh
             return IV(0, None)
         if d == "int.from_bytes" and e.args:
             signed = any(kw.arg == "signed" and isinstance(kw.value, ast.Constant) and kw.value.value for kw in e.keywords)
@@ -826,6 +831,11 @@ class FuncIntervals:
             return IV(q.lo, None if q.hi is None else q.hi + 1)
         if d == "int" and len(e.args) == 1:
             inner = e.args[0]
+            hook = self.world.int_of_str.get(self.func.qual)
+            if hook is not None:
+                got = hook(inner)
+                if got is not None:
+                    return got
             if isinstance(inner, ast.BinOp) and isinstance(inner.op, ast.Div):
                 a, b = self.eval(inner.left, env), self.eval(inner.right, env)
                 if a.lo is not None and a.lo >= 0 and b.lo is not None and b.lo >= 1:
